@@ -157,6 +157,7 @@ class MerkleCache(object):
         self.length = 0
         self.level = []
         self.depth_higher = 0
+        self.truncations = 0
         self.initialized = Event()
 
     def _segment_length(self):
@@ -174,14 +175,17 @@ class MerkleCache(object):
 
     async def _extend_to(self, length):
         '''Extend the length of the cache if necessary.'''
-        if length <= self.length:
-            return
-        # Start from the beginning of any final partial segment.
-        # Retain the value of depth_higher; in practice this is fine
-        start = self._leaf_start(self.length)
-        hashes = await self.source_func(start, length - start)
-        self.level[start >> self.depth_higher:] = self._level(hashes)
-        self.length = length
+        while length > self.length:
+            # Start from the beginning of any final partial segment.
+            # Retain the value of depth_higher; in practice this is fine
+            truncations = self.truncations
+            start = self._leaf_start(self.length)
+            hashes = await self.source_func(start, length - start)
+            # A truncation whilst waiting for the source means the hashes read may have
+            # been replaced; read them again
+            if truncations == self.truncations:
+                self.level[start >> self.depth_higher:] = self._level(hashes)
+                self.length = length
 
     async def _level_for(self, length):
         '''Return a (level_length, final_hash) pair for a truncation
@@ -209,6 +213,7 @@ class MerkleCache(object):
             raise TypeError('length must be an integer')
         if length <= 0:
             raise ValueError('length must be positive')
+        self.truncations += 1
         if length >= self.length:
             return
         length = self._leaf_start(length)
